@@ -30,6 +30,9 @@ pub enum Node {
     /// formatter: 'm' message, 'l' level, 't' target
     Fmt { kind: char, spec: Option<Spec> },
     Group { inner: Vec<Node>, spec: Option<Spec> },
+    /// `{h(..)}`: the inner text with a level-dependent style switched on before
+    /// and off after it (two `set_style` calls on the writer, no characters)
+    Highlight { inner: Vec<Node> },
 }
 
 #[derive(Clone, Debug, Serialize, Deserialize, PartialEq)]
@@ -74,6 +77,7 @@ pub fn render(nodes: &[Node]) -> String {
             Node::Lit(t) => o.push_str(t),
             Node::Fmt { kind, spec } => o.push_str(&format!("{{{}{}}}", kind, render_spec(spec))),
             Node::Group { inner, spec } => o.push_str(&format!("{{({}){}}}", render(inner), render_spec(spec))),
+            Node::Highlight { inner } => o.push_str(&format!("{{h({})}}", render(inner))),
         }
     }
     o
@@ -115,6 +119,7 @@ pub fn eval(nodes: &[Node], msg: &str, level: &str, target: &str) -> String {
                 o.push_str(&apply(t, spec));
             }
             Node::Group { inner, spec } => o.push_str(&apply(&eval(inner, msg, level, target), spec)),
+            Node::Highlight { inner } => o.push_str(&eval(inner, msg, level, target)),
         }
     }
     o
@@ -162,10 +167,11 @@ fn gen_nodes(rng: &mut Rng, depth: u32) -> Vec<Node> {
     let n = rng.range(1, 3);
     let mut v = vec![];
     for _ in 0..n {
-        match rng.weighted(&[2, 6, if depth < 3 { 3 } else { 0 }]) {
+        match rng.weighted(&[2, 6, if depth < 3 { 3 } else { 0 }, if depth < 3 { 1 } else { 0 }]) {
             0 => v.push(Node::Lit(rng.pick(&["|", " - ", "é", "::", "x", "界 "]).to_string())),
             1 => v.push(Node::Fmt { kind: *rng.pick(&['m', 'm', 'm', 'l', 't']), spec: gen_spec(rng) }),
-            _ => v.push(Node::Group { inner: gen_nodes(rng, depth + 1), spec: gen_spec(rng) }),
+            2 => v.push(Node::Group { inner: gen_nodes(rng, depth + 1), spec: gen_spec(rng) }),
+            _ => v.push(Node::Highlight { inner: gen_nodes(rng, depth + 1) }),
         }
     }
     v
@@ -211,6 +217,7 @@ struct FaultyWriter<'a> {
     short_writes: u64,
     mid_char_stops: u64,
     interrupted: u64,
+    style_changes: u64,
     hash: Fnv,
 }
 
@@ -247,7 +254,12 @@ impl<'a> io::Write for FaultyWriter<'a> {
     }
 }
 
-impl<'a> encode::Write for FaultyWriter<'a> {}
+impl<'a> encode::Write for FaultyWriter<'a> {
+    fn set_style(&mut self, _style: &encode::Style) -> io::Result<()> {
+        self.style_changes += 1;
+        Ok(())
+    }
+}
 
 const LEVELS: [&str; 5] = ["ERROR", "WARN", "INFO", "DEBUG", "TRACE"];
 
@@ -302,7 +314,7 @@ fn execute_one(scn: &Scn, _opts: &ExecOpts) -> Outcome {
     let msg: String = scn.msg_pieces.concat();
     let level_txt = LEVELS[(scn.level as usize - 1).min(4)];
     let want = eval(&scn.nodes, &msg, level_txt, &scn.target);
-    let mut w = FaultyWriter { out: vec![], calls: 0, scn, short_writes: 0, mid_char_stops: 0, interrupted: 0, hash: Fnv::default() };
+    let mut w = FaultyWriter { out: vec![], calls: 0, scn, short_writes: 0, mid_char_stops: 0, interrupted: 0, style_changes: 0, hash: Fnv::default() };
     let res = std::panic::catch_unwind(std::panic::AssertUnwindSafe(|| {
         let enc = PatternEncoder::new(&pattern);
         let pieces = Pieces(&scn.msg_pieces);
@@ -341,6 +353,7 @@ fn execute_one(scn: &Scn, _opts: &ExecOpts) -> Outcome {
     out.probe("short_writes", w.short_writes);
     out.probe("stops_inside_a_character", w.mid_char_stops);
     out.probe("interrupted_calls", w.interrupted);
+    out.probe("style_changes_inside_patterns", w.style_changes);
     if scn.hard_error_at.is_some() {
         out.probe("hard_error_runs", 1);
     }
@@ -357,7 +370,7 @@ pub fn size(s: &Scn) -> usize {
     fn n(v: &[Node]) -> usize {
         v.iter()
             .map(|x| match x {
-                Node::Group { inner, .. } => 1 + n(inner),
+                Node::Group { inner, .. } | Node::Highlight { inner } => 1 + n(inner),
                 _ => 1,
             })
             .sum()
@@ -385,7 +398,7 @@ pub fn shrink(s: &Scn) -> Vec<Scn> {
             c.nodes.remove(i);
             out.push(c);
         }
-        if let Node::Group { inner, .. } = &s.nodes[i] {
+        if let Node::Group { inner, .. } | Node::Highlight { inner } = &s.nodes[i] {
             let mut c = s.clone();
             c.nodes.splice(i..i + 1, inner.clone());
             out.push(c);
